@@ -523,6 +523,9 @@ impl Model {
 
     fn subscribe(&mut self, ci: usize, f: &str, q: u8) {
         let (group, mf) = split_share(f);
+        // a shared subscription is identified by share name *and* filter (MQTT 5, 4.8.2):
+        // `$share/g/t` and `$share/g/u` are two independent groups
+        let group = group.map(|_| f.to_string());
         if self.clients[ci].subs.iter().any(|s| s.active && s.filter == f) {
             // repeating an existing subscription: nothing new (no retained replay)
             return;
